@@ -171,6 +171,110 @@ CLAIMED['C19'] = (
 OVERRIDE['C19'] = ('exploration', 'bounded deterministic enumeration of configuration dictionaries against an independent reader '
                    '(labelled bounded) + exhaustive exception-escape scan of configuration.py (eval-ast)')
 
+CLAIMED['C16'] = (
+    'Proof over every table satisfying Inv(table) (entries distinct, live, each satisfying Inv(IkeSa), no ended entry, '
+    'successors of rekeyed entries listed) and every datagram: IkeSaController.dispatch_message hands the datagram to '
+    'IkeSa.process_message at most once (ghost counter), for anything but an IKE_SA_INIT request to an entry of the table '
+    'whose local SPI equals the header SPI the initiator flag selects, for an IKE_SA_INIT request to a freshly created '
+    'IKE_SA; a datagram for an unknown SPI (or without an IKE header) is dropped with no change at all; nobody but the '
+    'routed IKE_SA leaves the table and nobody but it and its successor joins; the table stays duplicate-free (F7 '
+    'repaired); an IKE_SA that ended is removed and its CHILD_SAs are deleted in the kernel (delete_child_sas: one '
+    'DELSA pair per tracked CHILD_SA, none stays tracked); a rekeyed IKE_SA has its successor listed; a successor '
+    'that is None is never appended.  Frame facts: my_spi is written only by the constructor, ike_sas only by the '
+    'controller.',
+    'Not decided: kernel-expiry routing (process_expire / _get_ike_sa_by_child_sa_spi read ctypes objects), the '
+    'retransmission-timeout removal in main_loop (socket loop, outside the verifier; note: it removes from the list it '
+    'iterates over), the status query, and re-establishment of Inv(table) after the step (an authenticated response with '
+    'an unknown exchange type leaves Inv(IkeSa) with the ID advanced, observation F14).' + TIERB_NOTE,
+    'DESIGN.md section 6 C16')
+CLAIMED['C17'] = (
+    'Proof, for every datagram and every table state satisfying Inv(table): no exception other than OSError (contained '
+    'by main_loop, F8 repaired) leaves IkeSaController.dispatch_message -- every exceptional outcome of every callee '
+    '(header parse, configuration lookup, constructor, table lookup, process_message, delete_child_sas, list removal) '
+    'is an exceptional path that must be caught; and no IKE_SA of the table other than the routed one (and the '
+    'successor it had) is modified in any field (isolation).  Together with C06 (every parser raises only IkeSaError '
+    'subclasses and terminates with a linear variant) and the process_message clause that a parse error changes nothing.',
+    'main_loop itself (select / recvfrom / sendto, the timer sweeps, process_acquire / process_expire on ctypes objects) is '
+    'outside the verifier: that it only catches OSError and KeyError, and that to_dict rendering while logging is total, '
+    'are not decided here (F10 repaired, log_message is an ASSUMED total contract).' + TIERB_NOTE,
+    'DESIGN.md section 6 C17')
+CLAIMED['C10'] = (
+    'Proof against the two TRUSTED primitive requests (Xfrm.create_sa / Xfrm.delete_sa append one ghost effect each): '
+    'Xfrm.delete_child_sa deletes exactly the outbound SA (peer address, outbound SPI) and the inbound SA (our address, '
+    'inbound SPI) of the CHILD_SA with its protocol; IkeSa.delete_child_sas deletes exactly those pairs for every tracked '
+    'CHILD_SA in order (inductive loop invariant over a recursive effect specification) and leaves none tracked; '
+    'Xfrm.create_child_sa installs exactly two SAs; dispatch_message deletes the CHILD_SAs of an IKE_SA that ended '
+    'before dropping it from the table.  Frame fact: child_sas is assigned or mutated only in the listed handlers.',
+    'The handlers that decide WHEN a CHILD_SA is installed, replaced or handed to a successor '
+    '(process_create_child_sa_*, process_informational_*, _process_create_child_sa_negotiation_*) are ASSUMED contracts: '
+    'the SAD == tracked-set invariant over histories, and the failure paths F5 / F11 of DESIGN.md section 7, are not '
+    'decided.' + TIERB_NOTE,
+    'DESIGN.md section 6 C10')
+CLAIMED['C11'] = (
+    'Proof: IkeSa._select_best_sa_proposal returns intersection(mine, p) for the FIRST peer proposal p for which it is '
+    'not None and raises NoProposalChosen iff it is None for all of them (loop invariant), with every chosen transform in '
+    'the local proposal; Proposal.get_transform returns a transform of the requested type that is an element of the '
+    'proposal.  BOUNDED (labelled, not proved): Proposal.intersection equals an independent RFC 7296 2.7 reference (one '
+    'transform per locally required type, present in both by type/id/key length, first in local preference order, '
+    'number and SPI of the peer proposal, None if any type is missing or protocols differ) on every ordered pair of '
+    'proposals over a 6-transform universe up to length 3 (+ length 4 over two types): about 9 x 10^5 calls.',
+    'intersection enters the proof as an ASSUMED contract over an uninterpreted function (its dictionary-and-nested-loop '
+    'body is covered by the bounded check only); Transform equality is by hash of (type, id, keylen), modelled injective; '
+    'the KE-group checks and the initiator-side check of the returned proposal live in ASSUMED handlers.',
+    'DESIGN.md section 6 C11')
+CLAIMED['C12'] = (
+    'Proof: TrafficSelector.is_subset is sound and complete for inclusion of the packet sets the selectors denote '
+    '(quantified over address family, protocol, port, address) and equals the closed form; __eq__ is structural; get_port '
+    'yields 0 for the full range and the port for a single one; IkeSa._get_ipsec_configuration returns a policy entry of '
+    'the connection and selectors that lie inside that entry AND inside one of the proposed selectors of their side '
+    '(only ever narrowed), else TsUnacceptable; Xfrm.create_child_sa gives the kernel the ports of exactly these selectors.  '
+    'Bounded: the kernel selectors decoded from the real NEWSA requests denote the negotiated selectors -- open finding F12 '
+    '(non-CIDR ranges / port ranges are installed as the covering network and the end port).',
+    'get_network (ipaddress.ip_network / supernet loop) is an ASSUMED contract; mode matching and the initiator-side '
+    'check of narrowed selectors live in ASSUMED handlers.' + TIERB_NOTE,
+    'DESIGN.md section 6 C12')
+CLAIMED['C02'] = (
+    'Proof, for all messages, nonces, identities and keys: _generate_auth_payload signs exactly '
+    'message | nonce | prf(SK_p, IDType|RESERVED|IDdata) -- with prf(prf(psk, "Key Pad for IKEv2"), octets) for PSK and '
+    'the private key for RSA; _verify_auth_payload returns normally ONLY IF the received AUTH data equals that value '
+    'under the configured peer PSK (method 2) or verifies under the configured peer public key (method 1) over exactly '
+    'those octets, and raises AuthenticationFailed on every other path (wrong method, missing credential, mismatch).',
+    'Which message bytes, nonce, identity and SK_p the four call sites pass (own IKE_SA_INIT bytes, the OTHER side\'s '
+    'nonce, the presented ID, SK_pi / SK_pr by role) and the ID comparison with the configured identity are in the IKE_AUTH '
+    'handlers, ASSUMED at this stage: the establishment-implies-valid-AUTH theorem over histories is not decided.  '
+    'HMAC and RSA are uninterpreted (T3); RsaPrivateKey.sign / RsaPublicKey.verify are TRUSTED contracts.',
+    'DESIGN.md section 6 C02')
+CLAIMED['C01'] = (
+    'Proof of the per-endpoint half: generate_ike_sa_key_material gives each role its own direction\'s keys for sending '
+    'and the peer\'s for receiving (initiator: SK_ei/SK_ai/SK_pi out, SK_er/SK_ar/SK_pr in; responder mirrored) with the '
+    'same cipher / integrity / PRF objects for both directions; Xfrm.create_child_sa installs an outbound SA (our address '
+    '-> peer, the peer\'s SPI, keys ei/ai for the initiator and er/ar for the responder) and an inbound SA that is its '
+    'exact mirror image in addresses, selectors, ports, SPI role and keys, with the same protocol, mode, algorithms and '
+    'lifetime; the keys are the RFC 7296 slices of prf+ (C04).  Since both computations are functions of '
+    '(nonces, SPIs, DH secret, proposal, selectors), two endpoints that agree on those install mirror-image SAs.',
+    'That the two endpoints DO agree on nonces, SPIs, proposal and selectors after every kind of negotiation is a '
+    'two-party statement over handler histories (handlers are ASSUMED contracts) and is not decided; DH agreement is the '
+    'library\'s.  get_network is an ASSUMED contract.' + TIERB_NOTE,
+    'DESIGN.md section 6 C01')
+
+NA_REASON = {
+    'C09': 'not decided: collisions, absence of deadlock and agreement of the two endpoints after quiescence are statements '
+           'over every interleaving of two state machines, i.e. over histories of the eight exchange handlers; contracts '
+           'decide one call of one function, and the handlers themselves are ASSUMED contracts in this delivery.  The '
+           'per-function clauses that bear on C09 are proved under C08 / C13 (_check_in_states; a handled response leaves '
+           'no request-outstanding state without an armed request; Inv(IkeSa) preservation by the Message-ID window).  '
+           'No other technique was substituted.',
+    'C15': 'not decided: start-up flush / policy installation and the mapping of kernel ACQUIREs run through ctypes '
+           'request builders and ctypes event objects, which the VC generator does not model; IkeSaController.__init__ and '
+           'IkeSa.process_acquire were not brought under contract in the time available.  Only the bounded builder / parser '
+           'items of C14 (bounded-create-policies: three policies per protect entry with index << 3 | OUT, selectors, '
+           'protocol, mode, endpoints; bounded-flush; bounded-parse-acquire) touch it, and they are counted under C14.',
+    'C18': 'not decided: the cookie gate and the KE check live in IkeSa._process_ike_sa_negotiation_request and the '
+           'initiator retry in process_ike_sa_init_response; bringing them under contract needs models of the '
+           'Diffie-Hellman objects and of payload lookup over the payload union that were not finished, and the arming '
+           'clause of dispatch_message (cookie_secret handed to the new IKE_SA iff the half-open count exceeds the '
+           'threshold) was not stated.  No other technique was substituted.',
+}
 NOT_YET ='not yet claimed: contracts for this property are still being brought under the verifier (DESIGN.md section 6)'
 
 
@@ -194,7 +298,7 @@ def main():
                 'technique': tech,
             })
         else:
-            na.append({'property_id': pid, 'reason': NOT_YET})
+            na.append({'property_id': pid, 'reason': NA_REASON.get(pid, NOT_YET)})
     m = {
         'version': 1,
         'setup_cmd': 'python3-vt -m compileall -q pyvc contracts replay tools check.py && python3-vt check.py --self-test',
